@@ -661,8 +661,23 @@ class Z1(nn.Module):
         return self.fc(torch.relu(self.c1(self.frozen(x))).flatten(1))
 
 
-FAMILIES.update({'O1': O1, 'W2': W2, 'Z1': Z1})
-_SHAPES.update({'Z1': lambda s: (s.get('cin', 1), s.get('HW', 2)) if s.get('nd', 2) == 1 else (s.get('cin', 1), s.get('HW', 2), s.get('HW', 2)), 'O1': lambda s: (s.get('cin', 1), 2), 'W2': lambda s: (s.get('cin', 1), 2) if s.get('nd', 1) == 1 else (s.get('cin', 1), 2, 2)})
+class A2(nn.Module):
+    """two searchable convolutions whose outputs are flattened FIRST and summed afterwards, then Linear: the two sides of the sum must keep the
+    same alive features (one shared masker), and the Linear sees T x alive features"""
+
+    def __init__(self, C=2, cin=1, T=2, nd=1):
+        super().__init__()
+        conv = nn.Conv1d if nd == 1 else nn.Conv2d
+        self.a = conv(cin, C, 1)
+        self.b = conv(cin, C, 1)
+        self.fc = nn.Linear(C * (T if nd == 1 else T * T), 2)
+
+    def forward(self, x):
+        return self.fc(torch.relu(self.a(x)).flatten(1) + torch.relu(self.b(x)).flatten(1))
+
+
+FAMILIES.update({'O1': O1, 'W2': W2, 'Z1': Z1, 'A2': A2})
+_SHAPES.update({'A2': lambda s: (s.get('cin', 1), s.get('T', 2)) if s.get('nd', 1) == 1 else (s.get('cin', 1), s.get('T', 2), s.get('T', 2)), 'Z1': lambda s: (s.get('cin', 1), s.get('HW', 2)) if s.get('nd', 2) == 1 else (s.get('cin', 1), s.get('HW', 2), s.get('HW', 2)), 'O1': lambda s: (s.get('cin', 1), 2), 'W2': lambda s: (s.get('cin', 1), 2) if s.get('nd', 1) == 1 else (s.get('cin', 1), 2, 2)})
 
 
 def flat_outputs(y):
